@@ -117,7 +117,8 @@ static int paradef_ret;
 /* test type with counters and application abort code */
 static int test_init_cnt[MAXOBJ]; static uint32_t test_abort; static int test_wr_err;
 static uint32_t TTSize(CO_OBJ *o, CO_NODE *n, uint32_t w) { (void)o; (void)n; (void)w; return 4; }
-static CO_ERR TTInit(CO_OBJ *o, CO_NODE *n) { (void)n; test_init_cnt[o - od]++; return CO_ERR_NONE; }
+/* an entry whose stored first byte is EEh reports an initialisation error (after counting the call) */
+static CO_ERR TTInit(CO_OBJ *o, CO_NODE *n) { (void)n; test_init_cnt[o - od]++; return (o->Data && ((uint8_t *)o->Data)[0] == 0xEE) ? CO_ERR_TYPE_INIT : CO_ERR_NONE; }
 static CO_ERR TTRead(CO_OBJ *o, CO_NODE *n, void *b, uint32_t s) { (void)n; if (s != 4) return CO_ERR_BAD_ARG; memcpy(b, (void *)o->Data, 4); return CO_ERR_NONE; }
 static CO_ERR TTWrite(CO_OBJ *o, CO_NODE *n, void *b, uint32_t s) {
     if (s != 4) return CO_ERR_BAD_ARG;
